@@ -216,7 +216,16 @@ class BitstampAdapter:
                     if sc.get("sub_delay"):
                         await asyncio.sleep(sc["sub_delay"])
                     return {"token": "tok", "user_id": 42}
-            cli._client = FakeApi()
+            # the token request goes to the fake API: through the client object the websocket client holds, and -- should
+            # that object live under another name -- through the public method of its class
+            if hasattr(cli, "_client"):
+                cli._client = FakeApi()
+            else:
+                from basana.external.bitstamp import client as bclient_mod
+
+                async def fake_token(self_inner, *a, **k):
+                    return await FakeApi().get_websocket_auth_token()
+                bclient_mod.APIClient.get_websocket_auth_token = fake_token
         else:
             cli = Client(session=hub)
         cli.backoff_secs = sc.get("backoff", 1)
